@@ -19,3 +19,6 @@ for pid, cfg in chk.PROPS.items():
     os.remove(out)  # the point is the warm build cache; every ./check run links its own binary
     print("built %s in %.1fs" % (pid, s))
 PY
+# C03 runs one class of cases (RSA keys without CRT values) with the machine's default go, the repository's own
+# toolchain: warm its build cache for the packages that program needs (no files are written into /repo).
+( cd /repo && GOFLAGS=-mod=readonly go build ./crypto/ 2>/dev/null || true )
